@@ -24,15 +24,6 @@ import OPModel.Drive.C10
 namespace OP.C10
 open OP
 
-theorem init_inv (labels : List ZPath) : BInv (prePass labels) { paths := prePass labels } :=
-  ⟨by simp, List.nodup_nil, by simp, by simp⟩
-
-theorem labels_ok (labels : List ZPath) : ∀ l ∈ labels, l = [] ∨ l ∈ prePass labels := by
-  intro l hl
-  by_cases h : l = []
-  · exact Or.inl h
-  · exact Or.inr (label_mem_prePass labels l hl h)
-
 /-- **Construction is total**: the unit-operation renaming loop always finds a free name. -/
 theorem build_total (labels : List ZPath) : ∃ st, buildZones labels = .ok st := by
   obtain ⟨st, h, _⟩ := placeAll_spec (prePass labels) labels (labels_ok labels) _ (init_inv labels)
